@@ -52,6 +52,10 @@ def run(rep, tier):
     if nsz < 8:
         rep.fault("R10.2: only %d bucket size writes found in the B-tree mutators" % nsz)
 
+    # a multi-value update refused by the unique check leaves the old postings in place (insert the new values first)
+    from .c04 import update_order_rules
+    update_order_rules(rep, "R10.2", prog)
+
     rep.rule("R10.3", "ordered key set changed only under its write lock with the posting map re-checked inside; empty postings removed atomically (remove_if)", floor=6)
     for name in ("insert", "insert_array"):
         f = prog.fn(BI + "::" + name)
